@@ -140,11 +140,13 @@ CHECKS = {
     },
     'C08': {
         'level_text': 'z3/path enumeration decides, for every layout of <=2 (quick) / <=3 (thorough) key descriptors x <=2 certificates (Use encryption/signing/omitted/other, arbitrary/empty/real certificate texts), that the encryption-certificate selector reports "no key" exactly when none is advertised, never panics and never turns a bad certificate into "no key"; replayed natively with real certificates.',
-        'level_note': 'real getSPEncryptionCert executed from SSA; base64 decode and x509.ParseCertificate are contract stubs (fail or opaque certificate; exact on the two real test certificates); at most one descriptor with use="encryption" (several are ambiguous: outside). The MakeAssertionEl / xmlenc halves are covered where registered below.',
+        'level_note': 'real getSPEncryptionCert executed from SSA; base64 decode and x509.ParseCertificate are contract stubs (fail or opaque certificate; exact on the two real test certificates); at most one descriptor with use="encryption" (several are ambiguous: outside). Harness_C08_nodowngrade executes the real MakeAssertionEl, xmlenc RSA.Encrypt / CBC.Encrypt and Decrypt with uninterpreted crypto (inverse law under equal key/IV/hash): five metadata key layouts (none, encryption certificate, undecodable certificate, signing-only, use omitted). Outside: confidentiality of AES/RSA themselves; that no user string appears elsewhere in the form is argued structurally.',
         'harnesses': [
             {'name': 'Harness_C08_certselect', 'pkg': 'saml', 'replay': 'direct', 'must_reach': ['returned', 'advertised', 'nothing-advertised', 'real-cert-selected'],
              'opts': {'panic_is_violation': True}, 'validate_labels': ['nothing-advertised', 'real-cert-selected'],
              'quick': {'params': {'kd.max': 2}}, 'thorough': {'params': {'kd.max': 3}}, 'budget_s': {'quick': 600, 'thorough': 3000}},
+            {'name': 'Harness_C08_nodowngrade', 'pkg': 'saml', 'replay': 'direct', 'must_reach': ['made', 'refused', 'plaintext', 'encrypted'],
+             'validate_labels': ['plaintext', 'encrypted'], 'opts': {'no_sign_err': True, 'loop_limit': 20000}, 'quick': {'params': {'rand.mayfail': 0}}, 'thorough': {'params': {'rand.mayfail': 1}}},
         ],
     },
     'C10': {
